@@ -738,6 +738,18 @@ class TextXVisitor(RRELVisitor):
     def visit_rule_name(self, node, children):
         rule_name = str(node)
 
+        if rule_name.startswith("__asgn"):
+            # Parser model nodes of assignments are recognized by this
+            # prefix of their rule name.
+            line, col = self.grammar_parser.pos_to_linecol(node.position)
+            raise TextXSemanticError(
+                f'Rule name "{rule_name}" at {(line, col)} is reserved '
+                "(names starting with __asgn are used internally).",
+                line,
+                col,
+                filename=self.metamodel.file_name,
+            )
+
         if self.debug:
             self.dprint(f"Creating class: {rule_name}")
 
